@@ -188,7 +188,7 @@ Qed.
 
 (* non-vacuity of the usage rules *)
 Definition live_cfg : config :=
-  {| nworkers := 1; gcap := 2; lcap := 1; stealing := 0; interval := -1; bodies := [[1]; []] |}.
+  {| nworkers := 1; gcap := 2; lcap := 1; stealing := 0; interval := -1; bodies := [[1]; []]; blocks := [[0]] |}.
 Definition live_progs : list (list op) := [[OSubmit 0; OStop]].
 Lemma ex_usage_demo : usage live_cfg live_progs.
 Proof.
